@@ -31,6 +31,12 @@ claim("C12", "other",
       "Trusted: call-graph over resolved callees (serde-derived visitors are trusted not to panic), the API stop set (robustness of add_node etc. is C09/C11), the allow-table (1 entry) and the derived-field tables printed in the evidence.",
       "call-graph layer scan + guard-dominance rule on MIR (custom rustc_private lint)")
 
+claim("C11", "other",
+      "Decides the mechanisms behind 'a finalized graph or context rejects every mutation' and 'a failed call has no effect', on every control-flow path of every function that mutably borrows a GraphBody/ContextBody (enumerated from the program, classification derived, not frozen): finalized-guard dominance / set-once setters / finalizers / protected private helpers / type-cache writers (C11.G); in add_node_internal every error exit after the node was pushed passes through remove_last_node, which unregisters names, annotations, cached type and pops the node; the size counter is only written on success (C11.R). Arbitrary API histories as such are NOT explored.",
+      "DESIGN.md section 3, C11",
+      "Trusted: MIR CFG, the finalized-test recogniser (is_finalized() call or read of a `finalized` field), infeasible-edge pruning restricted to is_err/is_ok/is_some/is_none correlations on single-definition locals.",
+      "guard-dominance and must-pass-through rules on MIR CFGs (custom rustc_private lint)")
+
 ALL = ["C%02d" % i for i in range(1, 21)]
 
 def main():
